@@ -3,6 +3,8 @@ package props
 import (
 	"fmt"
 	"math/rand"
+	"reflect"
+	"strings"
 
 	"github.com/hashicorp/go-bexpr/grammar"
 
@@ -167,6 +169,9 @@ func c07Run(c *mon.Ctx, idx int) {
 		}
 	}
 	c07Fixed(c, idx)
+	if idx%150 == 11 {
+		c07Wide(c, idx)
+	}
 }
 
 // exactness: keys that differ only in case, surrounding spaces or escapes
@@ -193,6 +198,71 @@ var c07FixedCases = []c06Case{
 	{`any lm as v { "/v/k" == w }`, "T"}, {`any lm as v { v["k"] == w }`, "T"}, {`any lm as v { v.k == w }`, "T"}, {`all lm as v { "/v/k" == w }`, "F"}, {"all lm as i, v { v[`k`] != q }", "T"},
 }
 
+// c07Wide: names and shapes at sizes where a table or a cache might be
+// indexed by something narrower than the thing itself: identifiers of 20..80
+// bytes that share their first 16 / 24 / 32 / 64 bytes (created one after the
+// other in one process, both orders), structs with 255..300 and 1030 fields.
+var c07WideStruct = map[int]interface{}{}
+
+func c07Wide(c *mon.Ctx, idx int) {
+	expectT := func(text string, datum interface{}, what string) {
+		ev, err, pan, _ := createEval(text)
+		c.Evals(1)
+		if pan != "" || err != nil {
+			c.Violation("C07 fixed-case-rejected", "a selector-spelling expression was rejected", map[string]any{"expression": clip(text, 200), "error": fmt.Sprint(err) + pan})
+			return
+		}
+		if o := evaluate(ev, datum); o.Class3() != "T" {
+			c.Violation("C07 outcome-differs "+what+" got="+o.Class3()+" want=T", "one spelling of a path does not select the element the other spellings select", map[string]any{"expression": clip(text, 200), "observed": o.String(), "case": what})
+		}
+	}
+	// long identifiers with a common prefix
+	for _, plen := range []int{15, 16, 23, 24, 25, 31, 32, 33, 63, 64, 65} {
+		prefix := strings.Repeat("ServiceTaggedAddresses", 4)[:plen]
+		a, b := prefix+fmt.Sprintf("IPv4x%d", idx%7), prefix+fmt.Sprintf("IPv6x%d", idx%7)
+		if idx%2 == 1 {
+			a, b = b, a
+		}
+		datum := map[string]interface{}{"Node": map[string]interface{}{a: "va", b: "vb"}, a: "ta", b: "tb", "l": []interface{}{map[string]interface{}{a: 1, b: 2}}}
+		for _, pr := range [][2]string{{a, "a"}, {b, "b"}} {
+			id, v := pr[0], pr[1]
+			expectT(fmt.Sprintf(`Node.%s == v%s`, id, v), datum, "long-identifier-twins/dotted")
+			expectT(fmt.Sprintf(`Node["%s"] == v%s`, id, v), datum, "long-identifier-twins/bracket")
+			expectT(fmt.Sprintf(`"/Node/%s" == v%s`, id, v), datum, "long-identifier-twins/pointer")
+			expectT(fmt.Sprintf(`%s == t%s`, id, v), datum, "long-identifier-twins/top-level")
+			expectT(fmt.Sprintf(`"/%s" == t%s`, id, v), datum, "long-identifier-twins/top-level-pointer")
+			expectT(fmt.Sprintf(`any l as %s { %s.%s == %d }`, id, id, id, map[string]int{"a": 1, "b": 2}[v]), datum, "long-identifier-twins/binding")
+			expectT(fmt.Sprintf(`any l as %s { "/%s/%s" == %d }`, id, id, id, map[string]int{"a": 1, "b": 2}[v]), datum, "long-identifier-twins/binding-pointer")
+		}
+	}
+	// wide structs
+	for _, n := range []int{255, 256, 257, 300, 1030} {
+		v, ok := c07WideStruct[n]
+		if !ok {
+			fs := make([]reflect.StructField, n)
+			for i := range fs {
+				fs[i] = reflect.StructField{Name: fmt.Sprintf("F%d", i), Type: reflect.TypeOf(0)}
+			}
+			sv := reflect.New(reflect.StructOf(fs)).Elem()
+			for i := 0; i < n; i++ {
+				sv.Field(i).SetInt(int64(i + 1))
+			}
+			v = sv.Interface()
+			c07WideStruct[n] = v
+		}
+		for _, i := range []int{0, 1, 127, 128, 254, 255, 256, 257, 299, 511, 512, 1023, 1024, n - 1} {
+			if i >= n {
+				continue
+			}
+			expectT(fmt.Sprintf(`F%d == %d`, i, i+1), v, "wide-struct/dotted")
+			expectT(fmt.Sprintf(`"/F%d" == %d`, i, i+1), v, "wide-struct/pointer")
+			expectT(fmt.Sprintf(`S.F%d == %d and S["F%d"] == %d and "/S/F%d" == %d`, i, i+1, i, i+1, i, i+1), map[string]interface{}{"S": v}, "wide-struct/nested")
+			expectT(fmt.Sprintf(`F%d != %d`, i, i), reflect.ValueOf(&v).Elem().Interface(), "wide-struct/dotted")
+		}
+	}
+	c.Count("wide_cases")
+}
+
 func c07Fixed(c *mon.Ctx, idx int) {
 	cs := c07FixedCases[idx%len(c07FixedCases)]
 	c.Evals(1)
@@ -216,7 +286,7 @@ func init() {
 		NumCases:    func(tier string) int { return tierN(tier, 6000, 300000) },
 		Run:         c07Run,
 		Required: func(tier string) []string {
-			return []string{"cases_with_two_spellings", "fixed_cases", "quantified", "outcome:T", "outcome:F", "outcome:E", "spelling:dotted", "spelling:bracket-dq", "spelling:bracket-raw", "spelling:pointer", "spelling:mixed"}
+			return []string{"cases_with_two_spellings", "fixed_cases", "wide_cases", "quantified", "outcome:T", "outcome:F", "outcome:E", "spelling:dotted", "spelling:bracket-dq", "spelling:bracket-raw", "spelling:pointer", "spelling:mixed"}
 		},
 	})
 }
